@@ -638,7 +638,7 @@ static int do_step(char *tok)
 		lzma_options_lzma o;
 		if (!parse_chain(a[3], &c) || c.n != 1 || lzma_lzma_preset(&o, preset)) return RET_BADOP;
 		if (o.dict_size != c.lz[0].dict_size || o.mf != c.lz[0].mf || o.nice_len != c.lz[0].nice_len
-				|| o.mode != c.lz[0].mode || o.depth != 0)
+				|| o.mode != c.lz[0].mode)
 			return RET_BADOP;
 		cur_chain = c; cur_check = parse_check(a[2]);
 		return after_init(lzma_easy_encoder(&strm, preset, cur_check), K_SENC);
